@@ -190,3 +190,19 @@ Definition lossy_m_obs_ansi (p : list rgb) (a : N) :=
 (* the three generic conversions of an RGB colour *)
 Definition lossy_m_obs_rgb (p : list rgb) (c : rgb) :=
   (color_to_rgb (Rgb c) p, color_to_xterm (Rgb c), color_to_ansi (Rgb c) p).
+
+(* ---- adapters for the function translator (tools/gen_fn_lossy.py -> Generated/LossyFn.v):
+   the Rust newtypes seen through the representation chosen above.  Definitions only;
+   nothing above uses them. *)
+
+(* RgbColor(pub u8, pub u8, pub u8): fields .0 .1 .2 *)
+Definition rgb_f0 (c : rgb) : N := let '(r, _, _) := c in r.
+Definition rgb_f1 (c : rgb) : N := let '(_, g, _) := c in g.
+Definition rgb_f2 (c : rgb) : N := let '(_, _, b) := c in b.
+
+(* Ansi256Color(pub u8): the index itself *)
+Definition a256_f0 (i : N) : N := i.
+Definition a256_new (i : N) : N := i.
+
+(* Palette(pub [Rgb; 16]): the list itself *)
+Definition pal_f0 (p : list rgb) : list rgb := p.
